@@ -81,7 +81,8 @@ CLAIMED = {
              "gunicorn.access logger while the real handle() serves completed applications (every producer x framing x worker "
              "class), requests the server rejects itself, and client-controlled CR/LF/control bytes in target, header values and "
              "Basic-auth user under every access_log_format atom are judged by TLC (specs/AccessTrace.tla) against the status and "
-             "body length read from the wire.",
+             "body length read from the wire."
+             " Real servers (access log file or a handler on the root logger through logconfig_dict, several log levels, idle keep-alive connections, a multi-megabyte file to a client that reads late) are judged the same way.",
         design_ref="DESIGN.md 4 C19, 9",
         technique="TLA+ model checking of byte accounting / record sites + TLC trace validation of real access records vs. the wire"),
     "C08": dict(
@@ -114,7 +115,7 @@ CLAIMED = {
              "--max-requests-jitter J for sync / gthread / gevent / eventlet under sequential and concurrent clients, every "
              "response naming the serving pid, process table read after a quiescent tail); TLC judges every run against "
              "specs/RecycleTrace.tla."
-             " Real-process modes: sequential, concurrent, burst (queued jobs), parked keep-alive connection, long request draining past --timeout; Recycle.tla models keep-alive connections (WorkAfterLimitBounded).",
+             " Real-process modes: sequential, concurrent, burst (queued jobs), parked keep-alive connection, long request draining past --timeout, two listeners, keep-alive 0, body-less answers on a keep-alive connection, unix-socket binds; Recycle.tla models keep-alive connections (WorkAfterLimitBounded).",
         design_ref="DESIGN.md 4 C18, 9",
         technique="TLA+ model checking of the recycling rule + TLC trace validation of in-process worker loops and real gunicorn processes"),
     "C14": dict(
@@ -126,7 +127,7 @@ CLAIMED = {
              "run from the working tree under a background client load; pid files, socket file, process table and refused "
              "connections at quiescent checkpoints are validated by TLC against specs/UpgradeTrace.tla, whose ops drive the "
              "Upgrade actions (clauses on observed values = verdict; difference from the model state = drift)."
-             " Histories include WINCH / HUP on a daemonized old master, a new release that cannot boot, and runs without a configured pid file.",
+             " Histories include WINCH / HUP on a daemonized old master (back-out, then the next upgrade), a new release that cannot boot, runs without a configured pid file, --timeout 0, and servers started from a symlinked release directory that is switched before every USR2.",
         design_ref="DESIGN.md 4 C14, 9",
         technique="TLA+ model checking of the two-master protocol + TLC trace validation of real upgrade histories"),
     "C16": dict(
@@ -136,7 +137,7 @@ CLAIMED = {
              "instantiated for every setting in KNOWN_SETTINGS with values per validator family and loaded through a real "
              "WSGIApplication (argv, GUNICORN_CMD_ARGS, generated config files, framework defaults); TLC judges every load "
              "(specs/ConfigMergeTrace.tla)."
-             " Cases include invalid values that compare equal to the value in force and a reload after the chosen file stopped mentioning the setting (model action Reload).",
+             " Cases include invalid values that compare equal to the value in force, a reload after the chosen file stopped mentioning the setting (model action Reload), and the stand-in environment variables below the built-in default (SENDFILE, WEB_CONCURRENCY, PORT, FORWARDED_ALLOW_IPS: FallbackOnlyWhenUnmentioned, loads compared under two values of the variable); real servers are judged by specs/ConfigRunTrace.tla.",
         design_ref="DESIGN.md 4 C16, 9",
         technique="TLA+ decision-table model checked on the full product; TLC-emitted cases replayed into the real config loader for all 93 settings; TLC judges outcomes",
         note="Transcribed-function use of the technique (DESIGN.md 6). "),
@@ -147,7 +148,7 @@ CLAIMED = {
              "NeverDeletesForeign, RenameMoves; TLC behaviours, enumerated short histories and seeded random histories are "
              "replayed on the real Pidfile class over a scratch directory (real file-system calls, simulated process table, crash "
              "and short-write injection at every call) and judged call by call by TLC (specs/PidfileTrace.tla)."
-             " Two instances inside create() with every interleaving of their system calls (specs/PidfileConcTrace.tla, bound to the model's SharedTmp deviation) and a real master's pid file through the life of its workers (specs/PidfileRealTrace.tla) are included.",
+             " Two instances inside create() with every interleaving of their system calls (specs/PidfileConcTrace.tla, bound to the model's SharedTmp deviation) a real master's pid file through the life of its workers and daemonised starts polled by a reader (specs/PidfileRealTrace.tla), and kernel-level crash points of create() (strace fault injection; fresh, stale and symlinked paths, pid directory on the same / another file system) are included.",
         design_ref="DESIGN.md 4 C17, 9",
         technique="TLA+ model checking at system-call grain with crash injection + TLC trace validation of histories replayed on the real Pidfile class"),
     "C20": dict(
@@ -158,7 +159,7 @@ CLAIMED = {
              "Worker.init_process / set_owner_process over a recording fake kernel and in real forked processes as root "
              "(www-data, nobody, uid without passwd entry), plus real gunicorn servers (initial, respawned and post-HUP "
              "workers read from /proc); TLC judges each record (specs/PrivsTrace.tla)."
-             " Real servers include settings given through GUNICORN_CMD_ARGS, the workers of a USR2-started master and a HUP with an invalid configuration file.",
+             " Real servers include settings given through GUNICORN_CMD_ARGS, the workers of a USR2-started master and a HUP with an invalid configuration file; cases also run with the worker timeout switched off, with a capability missing (fake kernel) and with ids beyond 2^31.",
         design_ref="DESIGN.md 4 C20, 9",
         technique="TLA+ model of kernel credential semantics checked on the full product + TLC trace validation of real credential drops"),
     "C13": dict(
@@ -170,7 +171,7 @@ CLAIMED = {
              "ReapedWhenExpired under fairness. TLC -simulate behaviours are replayed into the REAL ThreadWorker.run() over a "
              "scripted selector / sockets / executor with virtual time (projected state compared after every step), plus "
              "scripted scenarios and seeded random schedules; all runs are judged by TLC against specs/GThreadTrace.tla."
-             " Real gthread processes (segmented requests on kept-alive connections, wall-clock keep-alive) are judged against specs/GThreadRealTrace.tla.",
+             " Real gthread processes (segmented requests on kept-alive connections, wall-clock keep-alive, pipelined requests, every connection slot taken beyond --timeout) are judged against specs/GThreadRealTrace.tla.",
         design_ref="DESIGN.md 4 C13, 9",
         technique="TLA+ model checking (safety + liveness) of the threaded worker + TLC trace validation of the real ThreadWorker.run() under scheduled interleavings"),
     "C03": dict(
